@@ -52,6 +52,9 @@ func (c *DefCommander) RetryTask(taskInsIds []string, ops ...CommandOptSetter) e
 			if err != nil {
 				return err
 			}
+			if len(aliveNodes) == 0 {
+				return fmt.Errorf("worker[%s] is not healthy and here is no alive worker to take over", dagIns.Worker)
+			}
 			dagIns.Worker = aliveNodes[rand.Intn(len(aliveNodes))]
 		}
 		return dagIns.Retry(taskInsIds)
@@ -86,6 +89,9 @@ func (c *DefCommander) ContinueTask(taskInsIds []string, ops ...CommandOptSetter
 			aliveNodes, err := GetKeeper().AliveNodes()
 			if err != nil {
 				return err
+			}
+			if len(aliveNodes) == 0 {
+				return fmt.Errorf("worker[%s] is not healthy and here is no alive worker to take over", dagIns.Worker)
 			}
 			dagIns.Worker = aliveNodes[rand.Intn(len(aliveNodes))]
 		}
